@@ -31,6 +31,7 @@ type envVal struct {
 	s      string
 	isLen  bool         // a variadic parameter bound to i arguments
 	sym    types.Object // a package-level symbol passed by name (e.g. _F_i64toa, _AX)
+	opnd   *Operand     // an operand built at the call site (jit.Ptr(_VP, 8), ...)
 }
 
 type asmSeq struct {
@@ -145,6 +146,13 @@ func (a *asmCtx) evalIn(e ast.Expr, env asmEnv) (envVal, bool) {
 			}
 		}
 	case *ast.CallExpr:
+		// operand constructors: jit.Ptr / jit.Sib / jit.Imm / jit.Reg
+		if callee := a.p.Callee(x); isJitFunc(callee, "Ptr") || isJitFunc(callee, "Sib") || isJitFunc(callee, "Reg") {
+			o := a.resolveOperand(a.em.operand(x, 0), env)
+			if o.Kind == "mem" || o.Kind == "reg" {
+				return envVal{opnd: &o}, true
+			}
+		}
 		// conversions int64(x)
 		if len(x.Args) == 1 {
 			if tv := a.p.TypeOf(x.Fun); tv != nil {
@@ -155,6 +163,67 @@ func (a *asmCtx) evalIn(e ast.Expr, env asmEnv) (envVal, bool) {
 		}
 	}
 	return envVal{}, false
+}
+
+// regOfExpr resolves an expression naming a register (package-level variable or bound parameter).
+func (a *asmCtx) regOfExpr(e ast.Expr, env asmEnv) string {
+	if e == nil {
+		return ""
+	}
+	if v, ok := a.evalIn(e, env); ok {
+		if v.opnd != nil && v.opnd.Kind == "reg" {
+			return v.opnd.Reg
+		}
+		if v.sym != nil {
+			if init := a.p.VarInit(v.sym); init != nil {
+				if r := a.em.operand(init, 0); r.Kind == "reg" {
+					return r.Reg
+				}
+			}
+		}
+	}
+	return ""
+}
+
+// resolveOperand patches one operand under env.
+func (a *asmCtx) resolveOperand(o Operand, env asmEnv) Operand {
+	if o.Kind == "imm" && !o.ImmOK && o.ImmExpr != nil {
+		if v, ok := a.evalIn(o.ImmExpr, env); ok && v.isInt {
+			o.Imm, o.ImmOK = v.i, true
+		}
+	}
+	if o.Kind == "mem" {
+		if !o.DispOK && o.DispExp != nil {
+			if v, ok := a.evalIn(o.DispExp, env); ok && v.isInt {
+				o.Disp, o.DispOK = v.i, true
+			}
+		}
+		if o.Reg == "" && o.BaseExp != nil {
+			o.Reg = a.regOfExpr(o.BaseExp, env)
+		}
+		if o.Index == "" && o.IdxExp != nil {
+			o.Index = a.regOfExpr(o.IdxExp, env)
+		}
+	}
+	if o.Kind == "other" && o.Expr != nil {
+		// a parameter holding a register/operand passed by name or built at the call site
+		if v, ok := a.evalIn(o.Expr, env); ok {
+			if v.opnd != nil {
+				r := *v.opnd
+				r.Expr = o.Expr
+				return r
+			}
+			if v.sym != nil {
+				if init := a.p.VarInit(v.sym); init != nil {
+					r := a.em.operand(init, 0)
+					r.Name = v.sym.Name()
+					r.Expr = o.Expr
+					return r
+				}
+			}
+		}
+	}
+	return o
 }
 
 // resolveOps patches operands whose displacement/immediate depend on bound parameters.
@@ -176,28 +245,7 @@ func (a *asmCtx) resolveOp(op EmitOp, env asmEnv) EmitOp {
 	}
 	ops := append([]Operand(nil), op.Ops...)
 	for i := range ops {
-		o := &ops[i]
-		if o.Kind == "imm" && !o.ImmOK && o.ImmExpr != nil {
-			if v, ok := a.evalIn(o.ImmExpr, env); ok && v.isInt {
-				o.Imm, o.ImmOK = v.i, true
-			}
-		}
-		if o.Kind == "mem" && !o.DispOK && o.DispExp != nil {
-			if v, ok := a.evalIn(o.DispExp, env); ok && v.isInt {
-				o.Disp, o.DispOK = v.i, true
-			}
-		}
-		if o.Kind == "other" && o.Expr != nil {
-			// a parameter holding a register/operand passed by name
-			if v, ok := a.evalIn(o.Expr, env); ok && v.sym != nil {
-				if init := a.p.VarInit(v.sym); init != nil {
-					r := a.em.operand(init, 0)
-					r.Name = v.sym.Name()
-					r.Expr = o.Expr
-					*o = r
-				}
-			}
-		}
+		ops[i] = a.resolveOperand(ops[i], env)
 	}
 	op.Ops = ops
 	if op.Label != "" && op.LblObj == nil && op.Call != nil {
